@@ -192,6 +192,11 @@ def conversion_stratum(ctx, prop, n):
     import cvlib
     from props import c06
     ccases = [c06.gen_case(ctx.seed * 100000 + 70000 + i) for i in range(n)]
+    # in every run: the free variable and the first state converted four times in a row (as inputs, each result converted
+    # again), so that the helper variables of a conversion (x_orig_deriv, x_orig_deriv_a, ...) need unique names repeatedly
+    for i in range(min(8, n)):
+        ccases[i] = dict(ccases[i], convs=[[i % 2, 0, True, True], ['prev', 1, True, True], ['prev', 2, True, True],
+                                           ['prev', 3, True, True]])
     for case, bad in zip(ccases, vlib.pmap(cvlib.conversion_coherence, ccases)):
         ctx.count(case_key=(case['spec'], case['convs']), nontrivial=True, kind='conversion-history')
         for who, what, detail in bad:
